@@ -267,13 +267,16 @@ def _one_random(kit, actor, doc, root, sub, wts, cfg):
             pass
     elif kind == 'readd':
         # re-use a child that was removed / replaced out earlier (same or another parent)
-        det = [k for k, n in enumerate(w.removed) if n.parent is None]
+        pool = w.detached_of(doc)
+        det = [k for k, n in enumerate(pool) if n.parent is None]
         if det:
-            yield {'op': 'ADD', 'a': actor, 'p': path, 'reuse': rng.choice(det), 'c': {'name': w.removed[det[0]].name}}
+            k = rng.choice(det)
+            yield {'op': 'ADD', 'a': actor, 'p': path, 'reuse': k, 'reuse_doc': doc, 'c': {'name': pool[k].name}}
     elif kind == 'remove_stale':
-        det = [k for k, n in enumerate(w.removed) if n.parent is None]
+        pool = w.detached_of(doc)
+        det = [k for k, n in enumerate(pool) if n.parent is None]
         if det:
-            yield {'op': 'REMOVE', 'a': actor, 'p': path, 'i': 0, 'reuse': rng.choice(det), 'fault': 'rej.not_a_child'}
+            yield {'op': 'REMOVE', 'a': actor, 'p': path, 'i': 0, 'reuse': rng.choice(det), 'reuse_doc': doc, 'fault': 'rej.not_a_child'}
     elif kind == 'weird':
         # values / children of uncertain status: only the *type* of any resulting exception is judged (C19)
         pool = [True, False, 1e-05, [], {}, [1], 10 ** 30, -0.0, '', ' ', None, 'None', 3.0]
